@@ -704,7 +704,26 @@ pub fn c06_case(rng: &mut Rng, st: &mut Stats) -> CaseOutcome {
         plans.push((input, ops, scanner_mode, rng.chance(1, 4)));
     }
     let case = || json!({"kind": "c06", "cfg": cfg, "patterns": cfg.describe(), "plans": plans.iter().map(|(i,o,m,w)| json!({"input": i, "ops": o, "scanner_set_mode_before": m, "with_positions": w})).collect::<Vec<_>>() });
-    let mut scanner = match build_any(cfg, rng.chance(1, 3)) {
+    let cached = rng.chance(1, 3);
+    if cached && rng.chance(1, 2) {
+        // a sibling configuration with the same names and patterns but other transitions is built
+        // through the cache first: the mode graph must not be shared with it
+        let mut sib = cfg.clone();
+        let k = rng.below(n_modes);
+        if sib.modes[k].trans.is_empty() {
+            let tt = sib.modes[k].pats[0].tt;
+            sib.modes[k].trans.push((tt, rng.below(n_modes)));
+        } else if rng.chance(1, 2) {
+            sib.modes[k].trans.remove(0);
+        } else {
+            sib.modes[k].trans[0].1 = (sib.modes[k].trans[0].1 + 1) % n_modes.max(1);
+        }
+        if sib != *cfg {
+            let _ = build_any(&sib, true);
+            st.count("cached_sibling_with_other_transitions_built_first");
+        }
+    }
+    let mut scanner = match build_any(cfg, cached) {
         Ok(s) => s,
         Err(e) => return CaseOutcome::Violated(Violation::new(e, case())),
     };
@@ -817,7 +836,8 @@ pub fn c06(tier: Tier) -> i32 {
     .floor("transition_lookup_hits_later_entry", 1000)
     .floor("transition_lookup_falls_between_entries", 1000)
     .floor("scanner_set_mode_before_find_iter", 1000)
-    .floor("iterations_through_with_positions", 1000);
+    .floor("iterations_through_with_positions", 1000)
+    .floor("cached_sibling_with_other_transitions_built_first", 1000);
     finish(&ctx, res, report)
 }
 
@@ -1142,6 +1162,47 @@ pub fn c12_case(rng: &mut Rng, st: &mut Stats) -> CaseOutcome {
             Ok(s) => s,
             Err(e) => return CaseOutcome::Violated(Violation::new(e, case())),
         };
+        // "unaffected ... by peeks": every second projection is replayed without its peeks
+        // (advance_to arguments taken from the interleaved run); all remaining outputs must agree.
+        if i % 2 == 1 {
+            let mut twin_ops: Vec<Op> = Vec::new();
+            let mut twin_outs_expected: Vec<Out> = Vec::new();
+            for (op, out) in executed.iter().zip(outs[i].iter()) {
+                match (op, out) {
+                    (Op::PeekN(_), _) => {}
+                    (Op::AdvanceToPeeked(_), Out::Advance(Some((arg, _)))) => {
+                        twin_ops.push(Op::AdvanceTo(*arg));
+                        twin_outs_expected.push(out.clone());
+                    }
+                    (Op::AdvanceToPeeked(_), _) => {}
+                    _ => {
+                        twin_ops.push(op.clone());
+                        twin_outs_expected.push(out.clone());
+                    }
+                }
+            }
+            let solo = match run_history(&fresh, &inputs[plans[i].0], &twin_ops) {
+                Ok(o) => o,
+                Err((k, pm)) => {
+                    return CaseOutcome::Violated(Violation::new(format!("panic in peek-free solo replay op #{}: {}", k, pm), case()))
+                }
+            };
+            st.count("projections_compared_without_peeks");
+            if solo != twin_outs_expected {
+                let k = solo.iter().zip(twin_outs_expected.iter()).position(|(a, b)| a != b).unwrap_or(0);
+                let mut c = case();
+                c["iterator"] = json!(i);
+                c["peek_free_ops"] = json!(twin_ops);
+                return CaseOutcome::Violated(Violation::new(
+                    format!(
+                        "iterator #{}: operation {:?} returned {:?} in the interleaved run (with peeks) and {:?} when the same calls without the peeks are replayed alone on a fresh scanner",
+                        i, twin_ops[k], twin_outs_expected[k], solo[k]
+                    ),
+                    c,
+                ));
+            }
+            continue;
+        }
         let solo = match run_history(&fresh, &inputs[plans[i].0], executed) {
             Ok(o) => o,
             Err((k, pm)) => {
@@ -1181,6 +1242,7 @@ pub fn c12(tier: Tier) -> i32 {
     .floor("step_with_live_iterators_in_different_modes", 10_000)
     .floor("iterator_dropped_mid_scan", 2000)
     .floor("scanner_set_mode_during_iterations", 2000)
-    .floor("projections_compared", 30_000);
+    .floor("projections_compared", 15_000)
+    .floor("projections_compared_without_peeks", 10_000);
     finish(&ctx, res, report)
 }
